@@ -391,7 +391,10 @@ func (jf *JSONFamily) plainOK(e *FuncEnc, a, v string, t types.Type, s *RefSchem
 			layout := ""
 			switch s.Format {
 			case "date-time":
-				layout = "2006-01-02T15:04:05.999999999Z07:00"
+				var ok bool
+				if layout, ok = timeLayoutOf(s); !ok {
+					return "false", "time layout of the schema is not a constant of package time or a string literal"
+				}
 			case "date":
 				layout = "2006-01-02"
 			default:
